@@ -854,6 +854,7 @@ func (g *GoFakeS3) copyObject(bucket, object string, meta map[string]string, w h
 	if err != nil {
 		return err
 	}
+	verifhook.At("copy.after-head")
 
 	// XXX No support for delete marker
 	// "If the current version of the object is a delete marker, Amazon S3
